@@ -132,7 +132,10 @@ def targets(ctx):
             return {"msg": "Mixed", "tree": {"scalars": {"f_leaf": {"s": "y" * n}, "f_int32": -1}}, "route": "kwargs"}
         return {"msg": "Maps", "tree": {"m_string_leaf": [["k" * n, {"s": "v" * n}]], "m_bool_string": [[True, ""]]}, "route": "kwargs"}
 
+    from . import _seq
+
     return [
         Target("corpus_values", ev, strategy=strat(), quick=700, thorough=8000, time_quick=70),
         Target("length_prefix_boundaries", ev, strategy=big(), quick=150, thorough=400),
+        _seq.target("C09"),
     ]
